@@ -105,6 +105,12 @@ def _limit_memory():
     resource.setrlimit(resource.RLIMIT_AS, (lim, lim))
 
 
+class DriverTimeout(Exception):
+    def __init__(self, timeout, cmd):
+        Exception.__init__(self, "no termination within %ss: %s" % (timeout, " ".join(map(str, cmd))[:300]))
+        self.trace = next((str(a) for a in cmd[1:] if str(a).endswith(".ndjson")), "-")
+
+
 def run(cmd, timeout=600, env=None, cwd=None, ok_codes=(0,), stdin=None):
     e = dict(os.environ)
     if env:
@@ -116,6 +122,10 @@ def run(cmd, timeout=600, env=None, cwd=None, ok_codes=(0,), stdin=None):
         r = subprocess.run(cmd, stdout=subprocess.PIPE, stderr=subprocess.STDOUT, text=True, timeout=timeout,
                            env=e, cwd=cwd, input=stdin, preexec_fn=_limit_memory if limit else None)
     except subprocess.TimeoutExpired:
+        # a driver (the real library under a recording harness) that does not finish: the unchanged tree needs seconds where the limit
+        # is minutes, so this is the library not making progress (e.g. ranks waiting for each other, a loop that never ends)
+        if os.sep + "bin" + os.sep + "drv_" in str(cmd[0]) or "mpirun" in str(cmd[0]):
+            raise DriverTimeout(timeout, cmd)
         raise MachineryError("timeout after %ss: %s" % (timeout, " ".join(map(str, cmd))[:300]))
     if ok_codes is not None and r.returncode not in ok_codes:
         raise MachineryError("command failed (%d): %s\n%s" % (r.returncode, " ".join(map(str, cmd))[:300], r.stdout[-3000:]))
